@@ -1,32 +1,28 @@
-"""Per-property configuration of check.py."""
+"""Per-property configuration of check.py: one module per property in tools/propcfg/Cxx.py.
+
+A module defines CFG (dict: claim, note, profiles, level, rule, assumptions, trusted_base, technique,
+explanation, env) and optionally
+  equal(a, b)        canonical comparison of an implementation result line and a model result line
+  nontrivial(c, r)   whether case c with implementation result r counts as non-trivial
+  classify(c, r)     histogram class of a case
+"""
+import glob
+import importlib.util
+import os
 
 HOOK_COMMITS = ["8f697da"]
 
 # reason shown in MANIFEST.not_applicable for properties whose check is not claimed (yet)
 NOT_YET = {}
 
-PROPS = {
-    "C02": {
-        "claim": "Proof: for every u32 width/height/depth/array size, mip count and pixel-info shape the model of "
-                 "layout.rs/pixel.rs yields surfaces that start at 0, are contiguous, have size max(1,dim>>level) and the "
-                 "formula length, sum to the reported total < 2^64, with indexed access equal to iteration and rejection "
-                 "exactly when the ideal total does not fit (15 theorems, no bound on sizes). The model is tied to the "
-                 "code by a differential run over boundary/PRNG headers in release and overflow-checking builds.",
-        "note": "Trusted: Lean kernel + propext/Classical.choice/Quot.sound; the hand-written model Layout.lean; "
-                "the correspondence check (harness, driver, diff) and its generators; agreement of code and model off "
-                "the generated cases.",
-        "profiles": ["release", "checked"],
-        "level": "proof",
-        "rule": "cases = every pixel-info shape x every resource kind (incl. all 64 DX9 face sets) on small boundary "
-                "dims, then PRNG cases over the u32 boundary set {0,1,..,2^k-1,2^k,2^k+1,..,2^32-1} for width/height/"
-                "depth/array size and mip counts 1..255 (+256, 2^32-1); a case is non-trivial when a layout is "
-                "produced (result starts with ok); distinct = distinct case lines",
-        "assumptions": [
-            "the implementation equals the model off the generated cases",
-            "u128 oracle in harness/src/c02.rs recomputes sizes/offsets independently of both",
-        ],
-        "trusted_base": ["model: lean/DdsModel/DdsModel/Layout.lean (pixel.rs surface_bytes, util.rs get_mipmap_size, "
-                         "layout.rs in full); not modelled: Header -> (width,height,depth,mips,caps2/dx10 fields) "
-                         "projection is taken from the public Header struct fields"],
-    },
-}
+PROPS = {}
+_here = os.path.dirname(os.path.abspath(__file__))
+for _f in sorted(glob.glob(os.path.join(_here, "propcfg", "C*.py"))):
+    _pid = os.path.basename(_f)[:-3]
+    _spec = importlib.util.spec_from_file_location(f"propcfg_{_pid}", _f)
+    _m = importlib.util.module_from_spec(_spec)
+    _spec.loader.exec_module(_m)
+    PROPS[_pid] = _m.CFG
+    for _fn in ("equal", "nontrivial", "classify"):
+        if hasattr(_m, _fn):
+            globals()[f"{_fn}_{_pid}"] = getattr(_m, _fn)
